@@ -811,7 +811,7 @@ func canRunCase(t *testing.T, out *verifOut, id string, c *canCase) {
 				HTTPClient: &http.Client{Transport: &canForeign{h: h, can: map[string]chan struct{}{}, tag: map[string]int{}}}}
 		case "sse":
 			hd := NewSSEHandler(getServer, nil)
-			ct = &SSEClientTransport{Endpoint: url, HTTPClient: &http.Client{Transport: &canFaultRT{&ordRT{hd}, h}}}
+			ct = &SSEClientTransport{Endpoint: url, HTTPClient: &http.Client{Transport: &canFaultRT{&ordRT{h: hd}, h}}}
 		default:
 			o := &StreamableHTTPOptions{}
 			rest := strings.TrimPrefix(strings.TrimPrefix(c.tr, "sh"), "sl")
@@ -823,7 +823,7 @@ func canRunCase(t *testing.T, out *verifOut, id string, c *canCase) {
 			}
 			hd := NewStreamableHTTPHandler(getServer, o)
 			cleanup = append(cleanup, hd.closeAll)
-			ct = &StreamableClientTransport{Endpoint: url, HTTPClient: &http.Client{Transport: &canFaultRT{&ordRT{hd}, h}},
+			ct = &StreamableClientTransport{Endpoint: url, HTTPClient: &http.Client{Transport: &canFaultRT{&ordRT{h: hd}, h}},
 				DisableStandaloneSSE: strings.Contains(rest, "n")}
 		}
 		var cs *ClientSession
